@@ -93,7 +93,8 @@ def selftest(vpath, rng):
     ex = executions(lines, meta.get("boundary"))
     if not ex:
         return None
-    picks = sorted(set([0, len(ex) // 3, (2 * len(ex)) // 3, len(ex) - 1]))[:EXECS + 1]
+    cand = sorted(set([0, len(ex) // 3, (2 * len(ex)) // 3, len(ex) - 1, len(ex) // 5, len(ex) // 2,
+                       (4 * len(ex)) // 5, (len(ex) * 7) // 8]))
     d = os.path.join(core.BUILD, "run", "selftest_" + os.path.basename(os.path.dirname(obs)) + "_" + meta["module"])
     shutil.rmtree(d, ignore_errors=True)
     os.makedirs(d)
@@ -102,6 +103,13 @@ def selftest(vpath, rng):
             shutil.copy(os.path.join(core.SPEC, f), d)
     with open(os.path.join(d, "Selftest_" + meta["cfg"]), "w") as f:
         f.write(meta["cfg_text"])
+    # controls: recorded executions that the trace module accepts unchanged (an execution that is one
+    # of the check's known findings is rejected here exactly as in the check's own run: it is skipped
+    # and counted)
+    with cf.ThreadPoolExecutor(max_workers=8) as pool:
+        cres = list(pool.map(lambda a: run_one(meta, d, 9000 + a[0], ex[a[1]]), enumerate(cand)))
+    picks = [c for c, r in zip(cand, cres) if r == "accept"][:EXECS + 1]
+    skipped = sum(1 for r in cres if r != "accept")
     jobs = []       # (label, lines)
     for pi in picks:
         e = ex[pi]
@@ -133,7 +141,7 @@ def selftest(vpath, rng):
     with cf.ThreadPoolExecutor(max_workers=12) as pool:
         res = list(pool.map(lambda a: run_one(meta, d, a[0], a[1][1]), enumerate(jobs)))
     shutil.rmtree(d, ignore_errors=True)
-    out = dict(log=os.path.relpath(obs, core.BUILD), module=meta["module"], executions=len(ex),
+    out = dict(log=os.path.relpath(obs, core.BUILD), module=meta["module"], executions=len(ex), skipped=skipped,
                controls=0, controls_accepted=0, corrupted=0, rejected=0, errors=0, accepted_fields=[])
     for (label, r) in zip(jobs, res):
         kind, pi, what = label[0]
@@ -163,6 +171,9 @@ def main():
         if ids and rid not in ids:
             continue
         r = selftest(vp, rng)
+        if r and r["controls"] == 0:
+            print(rid, "no accepted control execution", flush=True)
+            r = None
         if r:
             r["run"] = rid
             rows.append(r)
@@ -175,9 +186,12 @@ def main():
                 "control = a recorded execution re-validated unchanged (must be accepted); corrupted = the same\n"
                 "execution with ONE recorded field changed (integer + 1, boolean flipped, list shortened);\n"
                 "'still accepted' lists the fields whose change the trace module tolerated (measured values\n"
-                "inside their bound, counters that are only reported, and the like).\n\n"
+                "inside their bound, counters that are only reported, and the like).  Candidate executions that\n"
+                "the trace module rejects unchanged are the check's known findings (rejected in the check's own\n"
+                "run too); they are not used as controls (column 'controls accepted' counts the ones used).\n\n"
                 "| run | trace module | log | controls accepted | corrupted | rejected | evaluation error | still accepted |\n"
                 "|---|---|---|---|---|---|---|---|\n")
+        f.write("")
         for r in rows:
             f.write("| %s | %s | %s | %d/%d | %d | %d | %d | %s |\n" % (
                 r["run"], r["module"], r["log"], r["controls_accepted"], r["controls"], r["corrupted"],
